@@ -7,7 +7,9 @@ R_AXIOMS = [
 ]
 
 def P(n, **kw):
-    d = {"runmod": "RunC%02d" % n, "runner": "run_c%02d" % n, "axioms": []}
+    # "undetermined": regexes of dispatcher function names whose output the property does NOT fix uniquely
+    # (None = nothing is known to be determined; [] = every modelled function is determined by the property)
+    d = {"runmod": "RunC%02d" % n, "runner": "run_c%02d" % n, "axioms": [], "undetermined": []}
     d.update(kw)
     return d
 
@@ -22,7 +24,7 @@ PROPS = {
     "C04": P(4, axioms=R_AXIOMS, assumptions=["model (coq/Model/Quaternion.v) is hand-written; tied to /repo by the exact-arithmetic correspondence of this run",
               "C04_invert_R is stated over Coq's reals (q != 0 => |q|^2 != 0 needs an ordered field); every other theorem holds over any commutative ring/field"],
              trusted=["rustc monomorphisation of the generic code at Xq"]),
-    "C05": P(5, runmod="RunC04", axioms=R_AXIOMS, assumptions=["model (coq/Model/Quaternion.v, Matrix.v, Rotation.v) is hand-written; tied to /repo by the exact-arithmetic correspondence of this run",
+    "C05": P(5, runmod="RunC04", undetermined=["quat_of_m3", "quat_of_basis3"], axioms=R_AXIOMS, assumptions=["model (coq/Model/Quaternion.v, Matrix.v, Rotation.v) is hand-written; tied to /repo by the exact-arithmetic correspondence of this run",
               "the round trip (C05_roundtrip) is over Coq's reals with the standard sqrt; the action/orthonormality/composition theorems hold over any field with decidable equality",
               "a Basis3 is modelled by its matrix (the struct has that single private field)"],
              trusted=["rustc monomorphisation of the generic code at Xq"]),
